@@ -7,7 +7,7 @@ Extraction Language OCaml.
 Extraction "model.ml"
   st_new exec rexec r_new abs
   usize_max facts acheck regex_new compile wrap ngroups delegate_pattern to_str push_usize
-  vm_run search search_list semk sem init_caps Nat.add in_scope in_scope_all
+  vm_run search search_list semk sem init_caps Nat.add in_scope in_scope_all vm_scope_b
   regex_search regex_ngroups mnext cnext collect ccollect split_collect splitn_collect try_replacen
   m_init sp_init cap_get cap_len
   steps expansion check x_escape expander_default expander_python
